@@ -13,6 +13,7 @@ import json
 import random
 import re
 import sys
+import typing
 from typing import Any, List, Optional
 
 from ..core import Ctx, stable_hash
@@ -78,6 +79,18 @@ def unnorm_types(req: str = "U") -> list:
     return [typing.Optional, typing.Union, typing.Final, "Zzz", typing.List["Zzz"], typing.ClassVar]
 
 
+@typing.runtime_checkable
+class HasBitLength(typing.Protocol):
+    """a runtime checkable protocol whose member is a plain (not abstract) method: int implements it"""
+
+    def bit_length(self): ...
+
+
+@typing.runtime_checkable
+class HasFrobnicate(typing.Protocol):
+    def frobnicate(self): ...
+
+
 def preds_for(cls: str, field_variant: bool, req: str = "A") -> list:
     e = env()
     P, M = e["P"], e["M"]
@@ -95,12 +108,12 @@ def preds_for(cls: str, field_variant: bool, req: str = "A") -> list:
             return [P[str] | P[bytes], P[int] & P.ANY, "other", "fld", P[int] ^ P[int], numbers.Integral, cabc.Mapping, P[M].fld, P[None] | P[int]]
     if cls == "predY":
         common = [P[int] | P[str], P[int, str], numbers.Integral, P[int] ^ P[str], typing.SupportsInt,
-                  P[int] & ~P[str], ~~P[int]]
+                  P[int] & ~P[str], ~~P[int], HasBitLength, P[HasBitLength] & ~P[HasFrobnicate]]
         if field_variant:
             return common + ["fld", "f.d", P[M].fld, P.fld & P[int], re.compile("fl.*"), P[M][int], P[M]["fld|zzz"]]
         return common + [P.ANY, P[int] & P.ANY, ~P[str]]
     if cls == "predN":
-        common = [P[str] | P[bytes], cabc.Mapping, P[str] & P[int], "other", "x.*", P[str].fld, P[int] ^ P[int]]
+        common = [P[str] | P[bytes], cabc.Mapping, P[str] & P[int], "other", "x.*", P[str].fld, P[int] ^ P[int], HasFrobnicate]
         if field_variant:
             return common + [P[M].other, P[str][int], P.fld & P[str]]
         return common + ["fld", ~P[int], P[M].fld]
